@@ -16,6 +16,7 @@ def model_expr(program, inst):
     base = P.coq_rel("t", inst["t"], "(Some %d%%N)" % P.nid("t"), P.inst_cols(inst, "t"))
     pg = program.coq().replace("U_TABLE", P.coq_rel("u", inst["u"], "None", P.inst_cols(inst, "u"))).replace("T_TABLE", P.coq_rel("t", inst["t"], "None", P.inst_cols(inst, "t")))
     pg = pg.replace("U_COLS", P.coq_names(P.inst_cols(inst, "u")))
+    pg = pg.replace("L_COLS", "[" + "; ".join("(Some %d%%N, Some %d%%N)" % (P.nid("t"), P.nid(c)) for c in P.inst_cols(inst, "t")) + "]")
     return "(let r := run %s %s in (show r, names r))" % (base, pg)
 
 
